@@ -20,6 +20,8 @@ Dom0(name) ==
     [] name = "le0c" -> [lb |-> -Inf, ub |-> 0, int |-> FALSE]
     [] name = "free" -> [lb |-> -Inf, ub |-> Inf, int |-> FALSE]
     [] name = "gem2" -> [lb |-> -2, ub |-> Inf, int |-> FALSE]
+    [] name = "freei" -> [lb |-> -Inf, ub |-> Inf, int |-> TRUE]    \* free integer
+    [] name = "le0i" -> [lb |-> -Inf, ub |-> 0, int |-> TRUE]
     [] name = "im31" -> [lb |-> -3, ub |-> 1,  int |-> TRUE]      \* zero inside, |lb| > ub
     [] name = "cm21" -> [lb |-> -2, ub |-> 1,  int |-> FALSE]
     [] name = "im13" -> [lb |-> -1, ub |-> 3,  int |-> TRUE]      \* zero inside, |lb| < ub
@@ -40,6 +42,15 @@ Base(type, doms) == [type |-> type, doms |-> [j \in 1..Len(doms) |-> Dom(doms[j]
 Cases ==
   {Base(t, <<a>>) : t \in {"Abs"}, a \in NumDoms \cup AsymDoms}
   \cup {Base("Not", <<a>>) : a \in BinDoms}
+  \* sums / products whose range is already the whole line after some terms, the other terms continuous or
+  \* with a fractional coefficient: the result is not integer-valued (both term orders)
+  \cup {[Base("LinFunc", <<a, b>>) EXCEPT !.lin = l, !.cs = cs] : a \in {"c02", "cpm1", "cfixh", "i03"}, b \in {"freei", "free"},
+          l \in {<<1, 1>>, <<1, -1>>}, cs \in {1, 2}}
+  \cup {[Base("LinFunc", <<b, a>>) EXCEPT !.lin = <<1, 1>>] : a \in {"c02", "cfixh"}, b \in {"freei"}}
+  \cup {[Base("LinFunc", <<a, b, c>>) EXCEPT !.lin = <<1, 1, -1>>] : a \in {"c02", "i03"}, b \in {"ge0i"}, c \in {"ge0i"}}
+  \cup {[Base("LinFunc", <<a, b, c>>) EXCEPT !.lin = <<1, 1, 1>>] : a \in {"c02"}, b \in {"ge0i"}, c \in {"le0i"}}
+  \cup {[Base("QuadFunc", <<a, b>>) EXCEPT !.lin = <<1, 0>>, !.quad = << <<1, 2, 2>> >>] : a \in {"c02", "cfixh"}, b \in {"freei"}}
+  \cup {[Base("QuadFunc", <<a, b>>) EXCEPT !.lin = <<0, 0>>, !.quad = << <<1, 1, 1>>, <<1, 2, 2>> >>] : a \in {"c02", "cpm1"}, b \in {"freei"}}
   \* a fractional constant among integer arguments: the result is not integer-valued
   \cup {Base(t, <<a, b>>) : t \in {"Max", "Min"}, a \in IntDoms \cup {"c02"}, b \in {"cfixh", "cfrac"}}
   \cup {Base(t, <<b, a>>) : t \in {"Max", "Min"}, a \in IntDoms, b \in {"cfixh"}}
